@@ -687,6 +687,17 @@ class Interp:
             o = self.eval(e[1], env)
             v = self.eval(e[3], env)
             return self.set_prop(o, e[2], v)
+        if t == "opindex":
+            # ['opindex', op, obj, index, value]: the index expression is evaluated twice by the language (generators keep it pure)
+            o = self.eval(e[2], env)
+            i = self.eval(e[3], env)
+            cur = self.index_get(o, i)
+            v = self.binop(e[1], cur, self.eval(e[4], env))
+            return self.index_set(o, i, v)
+        if t == "rawnum":
+            return float(e[2])
+        if t == "rawstr":
+            return e[2]
         if t == "opset":
             o = self.eval(e[2], env)
             cur = self.get_prop(o, e[3])
@@ -942,7 +953,9 @@ def num_lit(x):
 
 
 def str_lit(s):
-    return "'" + s.replace("\\", "\\\\").replace("'", "\\'").replace("\n", "\\n").replace("$", "\\$") + "'"
+    if "${" in s:
+        raise Unsupported("string literal containing an interpolation start")
+    return "'" + s.replace("\\", "\\\\").replace("'", "\\'").replace("\n", "\\n").replace("\t", "\\t").replace("\r", "\\r") + "'"
 
 
 class Printer:
@@ -1031,6 +1044,10 @@ class Printer:
             return self.sub(e[1], 10) + "." + e[2], 10
         if t == "set":
             return self.sub(e[1], 10) + "." + e[2] + " = " + self.sub(e[3], 1), 1
+        if t == "opindex":
+            return self.sub(e[2], 10) + "[" + self.ex(e[3])[0] + "] " + e[1] + "= " + self.sub(e[4], 1), 1
+        if t in ("rawnum", "rawstr"):
+            return e[1], 11   # literal spelled exactly as given, value in e[2]
         if t == "opset":
             return self.sub(e[2], 10) + "." + e[3] + " " + e[1] + "= " + self.sub(e[4], 1), 1
         if t == "invoke":
@@ -1101,9 +1118,15 @@ class Printer:
         elif t == "if":
             self.emit(pad + "if " + self.top(s[1]) + " {", s)
             self.block(s[2], ind + 1)
-            if s[3] is not None:
+            els = s[3]
+            while els is not None and len(els) == 1 and els[0][0] == "if" and els[0][-1] == "elseif":
+                inner = els[0]
+                self.emit(pad + "} else if " + self.top(inner[1]) + " {", inner)
+                self.block(inner[2], ind + 1)
+                els = inner[3]
+            if els is not None:
                 self.emit(pad + "} else {")
-                self.block(s[3], ind + 1)
+                self.block(els, ind + 1)
             self.emit(pad + "}")
         elif t == "while":
             self.emit(pad + "while " + self.top(s[1]) + " {", s)
